@@ -6,14 +6,25 @@ from analysis.facts import norm_path
 from analysis.sym import sym, show_in, nosite, peel, core, walk, ret_values, args_of, guards_at, atoms_at, \
     variant_facts_at, cmp_facts_at, init_value, edge_guards, symbolizer, simplify, loop_source, defs_of, var_defs, agg_field
 from analysis.pat import match, Call, Cap, ANY, Pred, Const, has, chain_names, chain
-from rules.common import closure_of, closures_in, body_for, BYTE, CHAR, narrowing_casts
+from rules.common import closure_of, closures_in, body_for, BYTE, CHAR, narrowing_casts, state_locals, local_defs, V
 
 T = 'tokenization::'
 TOK = '<tokenization::BaseTokenizer as tokenization::Tokenize>::'
 
 
+R = {}
+
+
 def _var(name):
-    return Pred(lambda t: t[0] == 'var' and t[1] == name)
+    """role based (never the debug name): R maps a role to the local chosen by type / structure"""
+    return Pred(lambda t: isinstance(t, tuple) and t and t[0] == 'var' and len(t) > 2 and R.get(name) == t[2])
+
+
+def _one(b, ty, what):
+    c = state_locals(b, ty)
+    if len(c) != 1:
+        raise AnchorMissing('%s (mutable local of type %s): found %d' % (what, ty, len(c)))
+    return c[0]
 
 
 @rule('C01', 'R-C01-1', 'T2 CHAIN (framing)',
@@ -52,6 +63,8 @@ def r1(ctx):
       'filter), de_tokenize turns ids < 256 (strict) back into that byte, everything else is a special id')
 def r2(ctx):
     p = body_for(ctx, T + 'BaseTokenizer::process_input', BYTE)
+    R.clear()
+    R['tokens'] = _one(p, r'^std::vec::Vec<u32>$', 'id vector')
     ext = [t for t in p.calls(r'Extend>::extend$|Vec::extend$') if match(core(sym(p, t.args[0])), _var('tokens'))]
     ok = len(ext) == 1
     if ok:
@@ -96,6 +109,9 @@ def r2(ctx):
       '[m.start, m.end), [last, ..) (if non-empty) with last := m.end; with parsing off the whole text is one regular piece')
 def r3(ctx):
     b = ctx.body(T + 'BaseTokenizer::split_input')
+    R.clear()
+    R['splits'] = _one(b, r'^std::vec::Vec<tokenization::TokenInput<', 'piece vector')
+    R['last'] = _one(b, r'^usize$', 'end of the previous match')
     pushes = [t for t in b.calls(r'Vec::push$') if match(core(sym(b, t.args[0])), _var('splits'))]
     kinds = {}
     nx = [t for t in b.calls(r'::next$')]
@@ -132,7 +148,7 @@ def r3(ctx):
                                                                   'match': 'every match [m.start, m.end) is pushed as Special', 'tail': 'the tail [last, ..) is pushed when non-empty'}[k],
                     'split_input piece `%s` is missing or unguarded (pieces found: %s)' % (k, sorted(kinds)))
     ctx.require(set(kinds) <= {'between', 'match', 'tail'}, b, 'no-other-piece', 'no other piece is pushed', 'pieces: %s' % sorted(kinds))
-    ld = var_defs(b, 'last')
+    ld = local_defs(b, R['last'])
     vals = [core(v) for site, v in ld]
     ok = len(vals) == 2 and any(v[0] == 'const' and v[2] == 0 for v in vals) and any(match(v, mend) for v in vals)
     if ok:
@@ -165,6 +181,8 @@ def r4(ctx):
         raise AnchorMissing('CharTokenizer::process_token_input (found %d)' % len(cands))
     b = cands[0]
     ctx.stats['bodies_inspected'].add(b.path)
+    R.clear()
+    R['tokens'] = _one(b, r'^std::vec::Vec<tokenization::VocabToken<', 'token vector')
     writers = [t for t in b.terms('call') if t.args and t.args[0].place is not None and b.local_ty(t.args[0].place.local).startswith('&mut') and
                match(core(sym(b, t.args[0])), _var('tokens'))]
 
